@@ -232,6 +232,24 @@ def check_simulate(case, rec):
     worst = _cmp(ghe.hp_eft, ref, f"simulate({method})", tol_abs=1e-9 + 1e-12 * scale, abs_terms=absterms)
     if float(mx) != float(max(ghe.hp_eft)) or float(mn) != float(min(ghe.hp_eft)):
         raise Violation("simulate() return value is not (max, min) of hp_eft", sig={"kind": "return_value"})
+    if method == "HYBRID" and not case.get("zero"):
+        # same object, same height, a different long-time library (what compute_g_functions() does after a search):
+        # the next simulate() must superpose with the curve the object carries now
+        import copy
+
+        gf2 = copy.deepcopy(ghe.gFunction)
+        gf2.g_lts = {k: [float(v) * 1.25 + 0.5 for v in vals] for k, vals in gf2.g_lts.items()}
+        gf2.interpolation_table = {}  # a newly computed library starts without its lazily built table
+        ghe.gFunction = gf2
+        with warnings.catch_warnings():
+            warnings.simplefilter("ignore")
+            guarded(ghe.simulate, method=TimestepType.HYBRID, what="simulate(HYBRID) after library swap")
+        g2, _ = ghe.grab_g_function(ghe.B_spacing / ghe.bhe.b.H)
+        ref2, abs2 = o3_fast(q, t, np.asarray(g2.x, dtype=float), np.asarray(g2.y, dtype=float), **_params(ghe))
+        _cmp(ghe.hp_eft, ref2, "simulate(HYBRID) after library swap", tol_abs=1e-9 + 1e-12 * float(np.max(np.abs(ref2 - P["tg"]))),
+             abs_terms=abs2)
+        if float(np.max(np.abs(ref2 - ref))) > 1e-6:
+            rec.cls("library_swapped_and_result_changed")
     if case.get("zero") and any(float(v) != P["tg"] for v in ghe.hp_eft):
         raise Violation("zero load does not return exactly the ground temperature", sig={"kind": "zero_load"})
     changes = int(np.sum(np.sign(q[1:]) * np.sign(q[:-1]) < 0))
